@@ -5,7 +5,8 @@ import Ixd.RmProofs
 
 The sweep prunes the entries of every deleted blob (`index.GetDesc` / `index.RmDesc` by digest), the last loop those
 of every digest in `inIndex` that has no blob.  Up to the order swap-removes leave behind, the resulting top-level
-list (and child list) is the old one filtered by digest: `gc_manifests`, `gc_children`.  Consequences:
+list (and child list) is the old one filtered by digest: `gc_manifests`, `gc_children`; after F41 a last step drops
+every child record whose digest has no blob (`pruneChildren`, `gc_children_backed'`).  Consequences:
 `gc_index_backed` (no entry without a blob), `gc_index_keeps` (entries of kept digests stay, tags included).
 -/
 namespace Ixd
@@ -128,13 +129,18 @@ def survives (p : Policy) (ix : Index) (bs : List Blob) (e : Desc) : Bool :=
   bs.all (fun b => dgS p (marks p ix bs).seen (marks p ix bs).inIdx b != some e.dig) &&
   (marks p ix bs).inIdx.all (fun g => dgP bs g != some e.dig)
 
-theorem gc_sel (sel : Index → List Desc)
+/-- the index after the sweep and the loop over `inIndex`, before the child records are looked at -/
+def gcPre (p : Policy) (ix : Index) (bs : List Blob) : Index :=
+  (marks p ix bs).inIdx.foldl (pruneStep bs) (bs.foldl (sweepStep p (marks p ix bs).seen (marks p ix bs).inIdx) (ix, [])).1
+
+theorem gc_index_eq (p : Policy) (ix : Index) (bs : List Blob) : (gc p ix bs).index = pruneChildren bs (gcPre p ix bs) := rfl
+
+theorem gcPre_sel (sel : Index → List Desc)
     (h1 : ∀ (jx : Index) (g : Nat), g ≠ 0 → (sel (rmGuard jx g)).Perm ((sel jx).filter (fun e => e.dig ≠ g)))
     (h2 : ∀ (jx : Index) (g : Nat), g ≠ 0 → (sel (rmDesc jx { mt := 0, dig := g })).Perm ((sel jx).filter (fun e => e.dig ≠ g)))
     (p : Policy) (ix : Index) (bs : List Blob) (hz : ∀ b ∈ bs, b.dig ≠ 0) :
-    (sel (gc p ix bs).index).Perm ((sel ix).filter (survives p ix bs)) := by
-  unfold gc
-  simp only []
+    (sel (gcPre p ix bs)).Perm ((sel ix).filter (survives p ix bs)) := by
+  unfold gcPre
   rw [sweep_fst]
   -- the sweep
   have hs := fold_perm sel (fun jx b => if keepB p (marks p ix bs).seen (marks p ix bs).inIdx b then jx else rmGuard jx b.dig)
@@ -165,17 +171,111 @@ theorem gc_sel (sel : Index → List Desc)
   unfold survives
   exact Bool.and_comm _ _
 
-/-- the top-level entries after the collection -/
-theorem gc_manifests (p : Policy) (ix : Index) (bs : List Blob) (hz : ∀ b ∈ bs, b.dig ≠ 0) :
-    (gc p ix bs).index.manifests.Perm (ix.manifests.filter (survives p ix bs)) :=
-  gc_sel (·.manifests) (fun ix g hg => rmGuard_manifests ix hg)
-    (fun ix g hg => rmDesc_digest_manifests ix { mt := 0, dig := g } rfl hg) p ix bs hz
+/-- a record is backed: its digest has a blob in the blob list taken before the sweep (or it is the empty digest, which
+    `RmDesc` cannot address) -/
+def backedB (bs : List Blob) (e : Desc) : Bool := (getBlob bs e.dig).isSome || e.dig == 0
 
-/-- the child entries after the collection -/
+theorem dgP_eq_some {bs : List Blob} {g d : Nat} : dgP bs g = some d ↔ (getBlob bs g).isNone = true ∧ g ≠ 0 ∧ g = d := by
+  unfold dgP
+  split
+  · rename_i hc
+    simp only [Option.some.injEq]
+    exact ⟨fun h => ⟨hc.1, hc.2, h⟩, fun h => h.2.2⟩
+  · rename_i hc
+    constructor
+    · intro h; cases h
+    · intro h; exact absurd ⟨h.1, h.2.1⟩ hc
+
+/-- the child-record step does not touch a backed record … -/
+theorem kall_of_backed {bs : List Blob} {e : Desc} (K : List Nat) (hb : backedB bs e = true) :
+    K.all (fun g => dgP bs g != some e.dig) = true := by
+  rw [List.all_eq_true]
+  intro g _
+  rw [bne_iff_ne]
+  intro h
+  obtain ⟨h1, h2, h3⟩ := dgP_eq_some.mp h
+  subst h3
+  unfold backedB at hb
+  cases hg : getBlob bs e.dig with
+  | none => simp [hg, h2] at hb
+  | some b => simp [hg] at h1
+
+/-- … and removes every record among the listed digests that is not -/
+theorem kall_eq_backed {bs : List Blob} {e : Desc} (K : List Nat) (hm : e.dig ∈ K) :
+    K.all (fun g => dgP bs g != some e.dig) = backedB bs e := by
+  cases hb : backedB bs e with
+  | true => exact kall_of_backed K hb
+  | false =>
+    rw [List.all_eq_false]
+    refine ⟨e.dig, hm, ?_⟩
+    unfold backedB at hb
+    simp only [Bool.or_eq_false_iff, beq_eq_false_iff_ne] at hb
+    have : dgP bs e.dig = some e.dig := dgP_eq_some.mpr ⟨by simpa using hb.1, hb.2, rfl⟩
+    simp [this]
+
+theorem pruneChildren_sel (sel : Index → List Desc)
+    (h2 : ∀ (jx : Index) (g : Nat), g ≠ 0 → (sel (rmDesc jx { mt := 0, dig := g })).Perm ((sel jx).filter (fun e => e.dig ≠ g)))
+    (bs : List Blob) (jx : Index) :
+    (sel (pruneChildren bs jx)).Perm ((sel jx).filter (fun e => (jx.children.map (·.dig)).all (fun g => dgP bs g != some e.dig))) := by
+  unfold pruneChildren
+  exact fold_perm sel (pruneStep bs) (dgP bs) _ (by
+    intro g _ kx
+    unfold pruneStep dgP
+    by_cases hc : (getBlob bs g).isNone = true ∧ g ≠ 0
+    · rw [if_pos hc, if_pos hc, ← filter_ne_some]
+      exact h2 kx g hc.2
+    · rw [if_neg hc, if_neg hc, filter_none]) jx
+
+/-- a surviving top-level entry is backed: `inIndex` names its digest -/
+theorem survives_entry_backed {p : Policy} {ix : Index} {bs : List Blob} {e : Desc} (he : e ∈ ix.manifests)
+    (hs : survives p ix bs e = true) : backedB bs e = true := by
+  unfold survives at hs
+  simp only [Bool.and_eq_true, List.all_eq_true, bne_iff_ne, ne_eq] at hs
+  have hi : e.dig ∈ (marks p ix bs).inIdx := by
+    apply (marks_inv p ix bs).idx0
+    rw [List.mem_reverse, List.mem_map]
+    exact ⟨e, he, rfl⟩
+  have h2 := hs.2 e.dig hi
+  unfold backedB
+  cases hg : getBlob bs e.dig with
+  | some b => simp
+  | none =>
+    by_cases hz : e.dig = 0
+    · simp [hz]
+    · exact absurd (dgP_eq_some.mpr ⟨by simp [hg], hz, rfl⟩) h2
+
+/-- the top-level entries after the collection (the child-record step removes none of them) -/
+theorem gc_manifests (p : Policy) (ix : Index) (bs : List Blob) (hz : ∀ b ∈ bs, b.dig ≠ 0) :
+    (gc p ix bs).index.manifests.Perm (ix.manifests.filter (survives p ix bs)) := by
+  have hpre := gcPre_sel (·.manifests) (fun ix g hg => rmGuard_manifests ix hg)
+    (fun ix g hg => rmDesc_digest_manifests ix { mt := 0, dig := g } rfl hg) p ix bs hz
+  rw [gc_index_eq]
+  refine (pruneChildren_sel (·.manifests) (fun ix g hg => rmDesc_digest_manifests ix { mt := 0, dig := g } rfl hg) bs _).trans ?_
+  rw [List.filter_eq_self.mpr]
+  · exact hpre
+  · intro e he
+    obtain ⟨h1, h2⟩ := List.mem_filter.mp (hpre.mem_iff.mp he)
+    exact kall_of_backed _ (survives_entry_backed h1 h2)
+
+/-- the child records after the collection: those that survive the sweep and the `inIndex` loop and are backed -/
 theorem gc_children (p : Policy) (ix : Index) (bs : List Blob) (hz : ∀ b ∈ bs, b.dig ≠ 0) :
-    (gc p ix bs).index.children.Perm (ix.children.filter (survives p ix bs)) :=
-  gc_sel (·.children) (fun ix g hg => rmGuard_children ix hg)
+    (gc p ix bs).index.children.Perm (ix.children.filter (fun c => survives p ix bs c && backedB bs c)) := by
+  have hpre := gcPre_sel (·.children) (fun ix g hg => rmGuard_children ix hg)
     (fun ix g hg => rmDesc_digest_children ix { mt := 0, dig := g } rfl hg) p ix bs hz
+  rw [gc_index_eq]
+  refine (pruneChildren_sel (·.children) (fun ix g hg => rmDesc_digest_children ix { mt := 0, dig := g } rfl hg) bs _).trans ?_
+  have hcongr : (gcPre p ix bs).children.filter (fun e => ((gcPre p ix bs).children.map (·.dig)).all (fun g => dgP bs g != some e.dig)) =
+      (gcPre p ix bs).children.filter (backedB bs) := by
+    apply List.filter_congr
+    intro e he
+    exact kall_eq_backed _ (List.mem_map_of_mem he)
+  rw [hcongr]
+  refine (hpre.filter _).trans ?_
+  rw [List.filter_filter]
+  apply List.Perm.of_eq
+  apply List.filter_congr
+  intro e _
+  exact Bool.and_comm _ _
 
 /-- an entry whose blobs are all kept, and which has a blob (or the empty digest), survives -/
 theorem survives_of_kept {p : Policy} {ix : Index} {bs : List Blob} {e : Desc}
@@ -204,18 +304,14 @@ theorem survives_of_kept {p : Policy} {ix : Index} {bs : List Blob} {e : Desc}
       · exact hc.2 h
     · simp
 
-/-- a surviving entry with a non-empty digest that `inIndex` names has a blob, and that blob is kept -/
+/-- a surviving, backed record with a non-empty digest: its blob is kept by this pass -/
 theorem survives_backed {p : Policy} {ix : Index} {bs : List Blob} {e : Desc} (hs : survives p ix bs e = true)
-    (hi : e.dig ∈ (marks p ix bs).inIdx) (hnz : e.dig ≠ 0) : e.dig ∈ (gc p ix bs).blobs := by
+    (hbk : backedB bs e = true) (hnz : e.dig ≠ 0) : e.dig ∈ (gc p ix bs).blobs := by
   unfold survives at hs
   simp only [Bool.and_eq_true, List.all_eq_true, bne_iff_ne, ne_eq] at hs
-  have h2 := hs.2 e.dig hi
-  unfold dgP at h2
-  have hex : getBlob bs e.dig ≠ none := by
-    intro hn
-    simp [hn, hnz] at h2
+  unfold backedB at hbk
   cases hb : getBlob bs e.dig with
-  | none => exact absurd hb hex
+  | none => simp [hb, hnz] at hbk
   | some b =>
     obtain ⟨hbm, hbd⟩ := getBlob_mem_bs hb
     have h1 := hs.1 b hbm
@@ -224,15 +320,20 @@ theorem survives_backed {p : Policy} {ix : Index} {bs : List Blob} {e : Desc} (h
     · exact mem_gc_blobs.mpr ⟨b, hbm, hbd, hk⟩
     · simp [hk, hbd] at h1
 
+/-- C06 (F41): after the collection no child record is left without a blob either -/
+theorem gc_children_backed' {p : Policy} {ix : Index} {bs : List Blob} (hz : ∀ b ∈ bs, b.dig ≠ 0) {c : Desc}
+    (hc : c ∈ (gc p ix bs).index.children) (hnz : c.dig ≠ 0) : c ∈ ix.children ∧ c.dig ∈ (gc p ix bs).blobs := by
+  have hm := (gc_children p ix bs hz).mem_iff.mp hc
+  obtain ⟨h1, h2⟩ := List.mem_filter.mp hm
+  simp only [Bool.and_eq_true] at h2
+  exact ⟨h1, survives_backed h2.1 h2.2 hnz⟩
+
 /-- C06: after the collection no top-level entry is left without a blob -/
 theorem gc_index_backed' {p : Policy} {ix : Index} {bs : List Blob} (hz : ∀ b ∈ bs, b.dig ≠ 0) {e : Desc}
     (he : e ∈ (gc p ix bs).index.manifests) (hnz : e.dig ≠ 0) : e ∈ ix.manifests ∧ e.dig ∈ (gc p ix bs).blobs := by
   have hm := (gc_manifests p ix bs hz).mem_iff.mp he
   obtain ⟨h1, h2⟩ := List.mem_filter.mp hm
-  refine ⟨h1, survives_backed h2 ?_ hnz⟩
-  apply (marks_inv p ix bs).idx0
-  rw [List.mem_reverse, List.mem_map]
-  exact ⟨e, h1, rfl⟩
+  exact ⟨h1, survives_backed h2 (survives_entry_backed h1 h2) hnz⟩
 
 /-- C05: an entry whose digest the mark phase has seen stays in the index, annotations (tag) included -/
 theorem gc_index_keeps {p : Policy} {ix : Index} {bs : List Blob} (hz : ∀ b ∈ bs, b.dig ≠ 0) {e : Desc}
